@@ -59,6 +59,18 @@ def apply_op(kind, arr, src_arr, op, args, via_series):
         return arr.take(list(args)) if len(args) % 2 else arr.take(np.array(args, dtype=np.int64))
     if op == "takefill":
         return arr.take(np.array(args, dtype=np.int64), allow_fill=True, fill_value=None if len(args) % 2 else np.nan)
+    if op == "shift":
+        return sp.GeoSeries(arr).shift(args[0]).array if via_series else arr.shift(args[0])
+    if op == "repeat":
+        return sp.GeoSeries(arr).repeat(args[0]).array if via_series else arr.repeat(args[0])
+    if op == "dropna":
+        return sp.GeoSeries(arr).dropna().array if via_series else arr.dropna()
+    if op == "fillna":
+        return sp.GeoSeries(arr).fillna(src_arr[0]).array if via_series else arr.fillna(src_arr[0])
+    if op == "insert":
+        return arr.insert(args[0], src_arr[0])
+    if op == "delete":
+        return arr.delete(sorted(args))
     if op == "concat_self":
         return type(arr)._concat_same_type([arr, arr])
     if op == "concat_src":
